@@ -290,8 +290,13 @@ async fn migrate_manifest(
 }
 
 fn check_storage_version(manifest: &mut Manifest) -> Result<()> {
-    let data_storage_version = manifest.data_storage_format.lance_file_version()?;
-    if manifest.data_storage_format.lance_file_version()? == LanceFileVersion::Legacy {
+    // The label may be an alias (`stable` / `next`); files only ever carry concrete versions,
+    // so compare against what the alias resolves to.
+    let data_storage_version = manifest
+        .data_storage_format
+        .lance_file_version()?
+        .resolve();
+    if data_storage_version == LanceFileVersion::Legacy {
         // Due to bugs in 0.16 it is possible the dataset's data storage version does not
         // match the file version.  As a result, we need to check and see if they are out
         // of sync.
